@@ -171,13 +171,21 @@ func execPrim(op string, a []string) string {
 			return "err"
 		}
 		t1, e1 := m.MACCreate(unhx(a[2]))
+		t1copy := append([]byte{}, t1...)
 		if e1 == nil {
 			m.MACVerify(unhx(a[2]), t1)
 			m.MACVerify(unhx(a[3]), t1)
 		}
-		t2, e2 := m.MACCreate(unhx(a[3]))
-		if e2 == nil && m.MACVerify(unhx(a[3]), t2) != nil {
+		d2 := unhx(a[3])
+		t2, e2 := m.MACCreate(d2)
+		if e2 == nil && m.MACVerify(d2, t2) != nil {
 			return "OWN-TAG-REFUSED"
+		}
+		if string(t1) != string(t1copy) {
+			return "EARLIER-RESULT-OVERWRITTEN"
+		}
+		if string(d2) != string(unhx(a[3])) {
+			return "ARGUMENT-WRITTEN"
 		}
 		return okBytes(t2, e2)
 	case "prim.macrekey":
@@ -206,17 +214,33 @@ func execPrim(op string, a []string) string {
 		if err != nil {
 			return "err"
 		}
-		if c1, e1 := e.Encrypt(unhx(a[2]), unhx(a[3]), unhx(a[4])); e1 == nil {
+		c1, e1 := e.Encrypt(unhx(a[2]), unhx(a[3]), unhx(a[4]))
+		c1copy := append([]byte{}, c1...)
+		var p1, p1copy []byte
+		if e1 == nil {
 			e.Decrypt(unhx(a[2]), flipBit(rand.New(rand.NewSource(1)), c1), unhx(a[4]))
-			if p, e2 := e.Decrypt(unhx(a[2]), c1, unhx(a[4])); e2 != nil || string(p) != string(unhx(a[3])) {
+			var e2 error
+			if p1, e2 = e.Decrypt(unhx(a[2]), c1, unhx(a[4])); e2 != nil || string(p1) != string(unhx(a[3])) {
+				return "OWN-CIPHERTEXT-REFUSED"
+			}
+			p1copy = append([]byte{}, p1...)
+			if string(c1) != string(c1copy) {
+				return "DECRYPT-WROTE-INTO-ITS-INPUT"
+			}
+		}
+		n2, pt2, ad2 := unhx(a[5]), unhx(a[6]), unhx(a[7])
+		c2, e2 := e.Encrypt(n2, pt2, ad2)
+		if e2 == nil {
+			if p, e3 := e.Decrypt(n2, c2, ad2); e3 != nil || string(p) != string(pt2) {
 				return "OWN-CIPHERTEXT-REFUSED"
 			}
 		}
-		c2, e2 := e.Encrypt(unhx(a[5]), unhx(a[6]), unhx(a[7]))
-		if e2 == nil {
-			if p, e3 := e.Decrypt(unhx(a[5]), c2, unhx(a[7])); e3 != nil || string(p) != string(unhx(a[6])) {
-				return "OWN-CIPHERTEXT-REFUSED"
-			}
+		// what earlier calls returned belongs to the caller: later calls do not touch it; arguments are read only
+		if string(c1) != string(c1copy) || string(p1) != string(p1copy) {
+			return "EARLIER-RESULT-OVERWRITTEN"
+		}
+		if string(n2) != string(unhx(a[5])) || string(pt2) != string(unhx(a[6])) || string(ad2) != string(unhx(a[7])) {
+			return "ARGUMENT-WRITTEN"
 		}
 		return okBytes(c2, e2)
 	case "prim.aeadalg":
